@@ -24,7 +24,15 @@ from nvlib.check import Prop
 from nvlib.extract import TieBroken
 
 MODS = ["-", "static", "private", "protected", "public"]
-VH_T0 = 1000000000       # harness/common/vh.h: the virtual clock starts here
+def _vh_t0():
+    """the start of the harness' virtual clock, read from harness/common/vh.h (not a copy)"""
+    m = re.search(r"#define\s+VH_T0\s+(\d+)", open(os.path.join(E.VERIF, "harness/common/vh.h")).read())
+    if not m:
+        raise TieBroken("harness:VH_T0", "VH_T0 not found in harness/common/vh.h")
+    return int(m.group(1))
+
+
+VH_T0 = _vh_t0()
 
 
 # --------------------------------------------------------------------------------------------
@@ -152,10 +160,15 @@ def lpc_source(g, P, base, savebin=False):
                 else:
                     par, fn = c[1:].split(".")
                     sup = "%s::%s(%s)" % ("" if par == "*" else par, fn, largs(fn))
-                    if c[0] == "J":     # the `::` call inside a functional, evaluated here
-                        calls.append("evaluate((: %s :));" % sup)
-                    elif c[0] == "K":   # ... evaluated by another object: only the pointer knows the creator's offsets
-                        calls.append('"/c07/caller"->do_eval((: %s :));' % sup)
+                    if c[0] == "J":     # the `::` call inside a functional / an anonymous function, evaluated here
+                        if (fnum(fn) + fnum(it[2])) % 2:
+                            calls.append("evaluate(function () { return %s; });" % sup)
+                        else:
+                            calls.append("evaluate((: %s :));" % sup)
+                    elif c[0] == "K":   # ... evaluated by another object: only the pointer knows the creator's offsets;
+                        # directly, or as the callback of an efun (map_array / filter_array) running there
+                        how = ("do_eval", "do_map", "do_filter")[(fnum(fn) + fnum(it[2]) + fnum(P.name)) % 3]
+                        calls.append('"/c07/caller"->%s((: %s :));' % (how, sup))
                     elif c[0] == "M":   # ... stored; some other function of this object evaluates it later (N)
                         calls.append('"/c07/caller"->stash((: %s :));' % sup)
                     else:
@@ -469,8 +482,7 @@ class C07(Prop):
               ("originCallOut", "ORIGIN_CALL_OUT"), ("originEfun", "ORIGIN_EFUN"),
               ("originFunctionPointer", "ORIGIN_FUNCTION_POINTER"), ("originFunctional", "ORIGIN_FUNCTIONAL"),
               ("nameMaskC", "NAME_MASK"), ("nameNoCodeC", "NAME_NO_CODE"),
-              ("cmpIndexBytes", "sizeof(((compressed_offset_table_t *)0)->index[0])"),
-              ("fnIndexBytes", "sizeof(function_index_t)")]
+              ("cmpIndexBytes", "sizeof(((compressed_offset_table_t *)0)->index[0])")]
     const_headers = ["lib/efuns/options.h", "lpc/program.h", "lpc/include/origin.h"]
     quick_n = 1200
     thorough_n = 12000
